@@ -83,7 +83,7 @@ CLAIMED.update({
         ref="DESIGN.md §5 C12"),
     "C02": dict(
         text="Proof (partial): C02_hint_spans (for EVERY text, every span scheduled by a hint lies within 1..lineCount of the STORED source), C02_hint_spans_centrifugated, C02_error_span (the ast_construction error label spans 1..lineCount), C02_binding_span (a computed span is the pair of lines of the captured POS), C02_node_span / C02_node_span_pipeline (on what flatten_ast returns for a well-formed tree with pre-order-monotone lines, every `node` match spans start <= end), C02_whole_span, C02_meta_program_once (whole_span yields at most one occurrence, hence at most one meta/program), C02_validSpanB_iff. Everything else in the property — the other regex features, SQL-derived spans, CPython's line numbers — is MONITORED: tag and collect are run under both cleanup strategies on generated and corpus programs and 1 <= start <= end <= nlines is evaluated on every printed/stored span.",
-        note="Open findings printed as KNOWN-FINDING: F31 (labels derived by SQL from hint-added labels carry the empty path, so start > end is possible), F32 (a string literal containing `_pos=99:` is captured by whole_span). PreorderMonotone is a hypothesis of C02_node_span stronger than needed (holds on about 3/4 of the real trees; the harness evaluates the span clause on every tree). Models mirror fixes 2658798 c744e6b 069b3bf 57ac228 d0d94f6 4327ef9 80f9da8 8ca25b9.",
+        note="Open finding printed as KNOWN-FINDING: F31 (labels derived by SQL from hint-added labels carry the empty path, so start > end is possible); F32 was repaired by b1d74a8. PreorderMonotone is a hypothesis of C02_node_span stronger than needed (holds on about 3/4 of the real trees; the harness evaluates the span clause on every tree). Models mirror fixes 2658798 c744e6b 069b3bf 57ac228 d0d94f6 4327ef9 80f9da8 8ca25b9.",
         technique="Lean 4 proofs for hint, error and binding spans + property monitoring of every span through tag/collect",
         ref="DESIGN.md §5 C02"),
     "C15": dict(
@@ -93,7 +93,7 @@ CLAIMED.update({
         ref="DESIGN.md §5 C15"),
     "C01": dict(
         text="Proof (partial): C01_node_labels — on the dump of any well-formed tree, the hand matcher of spec.md's overlapped `node` pattern yields exactly one (type, own line) per positioned node, in pre-order, and nothing else for positioned types; C01_node_labels_pipeline (the same on what flatten_ast returns, through C15_flatten_tweaked); C01_binding_own_line / C01_binding_start (get_bindings starts on the node's own line); C01_same_text (tagging depends on the program only through the stored source). The parser and cleaning are tied by end-to-end correspondence through ProgramParser, cli_tag and TagDatabase under both cleanup strategies against the multiset computed from ast.parse(stored_source).",
-        note="Trusted: the hand matcher of the spec.md pattern (validated against the real regex engine each run; domain: at most one `/_type=` per line), CPython's parser, the C15 tie. Open finding F17 (a string constant containing `_pos=` crashes pos_to_span).",
+        note="Trusted: the hand matcher of the spec.md pattern (validated against the real regex engine each run; domain: at most one `/_type=` per line), CPython's parser, the C15 tie. The exporter mirrors fix b1d74a8 (the `=` of `_pos=` escaped in dumped values); no open finding.",
         technique="Lean 4 proofs over the tree model + string-occurrence lemmas for the regex transcription + matcher-vs-engine and end-to-end differential correspondence",
         ref="DESIGN.md §5 C01"),
 })
